@@ -10,6 +10,7 @@ NT_RULE = {
     "C01": "TLC-simulated input sequences of Intents.tla replayed on the real Datastore; a step is non-trivial when it changes the ruling intent of at least one leaf or removes a managed leaf (counted by the trace spec)",
     "C02": "same traces; non-trivial when an owner named by the request has at least one shadowed entry in the pre-state",
     "C03": "same traces; non-trivial when a rejected or dry-run step occurs from a non-empty store",
+    "C04": "validity family (range, length, pattern, max-elements, mandatory, leafref, must; validator switches); every TransactionSet is followed by a probe that submits the resulting configuration as one intent to an empty datastore; non-trivial when the verdict depends on a leaf outside the request or the request is rejected (counted by the trace spec)",
     "C05": "same traces; non-trivial when a cancel/expiry has to restore at least one store entry and one device leaf",
     "C06": "same traces; non-trivial when a call names a wrong/stale id on an open transaction, a Set arrives while one is open, or a Set ends without apply",
     "C08": "choice family; non-trivial when the winning case of a choice changes",
